@@ -127,6 +127,15 @@ def reload_jobs(tier, rng):
                 pi.append(job)
             else:
                 vi.append(job)
+    # the solver object in use re-loads its own latest checkpoint between two calls: with shuffling it must go on with
+    # ITS stream of permutations (a twin solver with the same seed and one long call draws the reference sequence)
+    for k in range(3 if tier == "quick" else 20):
+        m = gen.union(rng, rng.randint(3, 6), PD=2, na=2, ne=2, rmax=3, v0max=1, plain=True, chain=True)
+        calls = rng.choice([[2, 1], [1, 2, 1], [2, 2]])
+        vi.append({"mdp": m, "kind": "SAVI", "gamma": [1, 2], "eps": [1, 10], "test": "span", "calls": calls,
+                   "mbs": rng.choice([2, 3]), "shuffle": True, "seed": rng.randrange(1000), "twin": True, "twin_calls": [sum(calls)],
+                   "reload": {"before_calls": [len(calls) - 1], "same_object": True, "freq": 1, "keep": 2, "async": k % 2 == 0},
+                   "cert": False, "tag": f"reload-same-object{k}", "min_sweeps": sum(calls)})
     return vi, pi
 
 
